@@ -40,7 +40,8 @@ ASSUMPTIONS = [
 ]
 DECIDING = [
     "run_and_measure", "run_batch_and_measure", "distribution", "get_wavefunction", "exact_expectation",
-    "tracker.single", "tracker.batch", "tracker.distribution", "history-counters", "history-outcome",
+    "tracker.single", "tracker.batch", "tracker.distribution", "history-counters", "history-counters-tracker",
+    "history-outcome",
 ]
 BRANCHES = [
     "base.run_and_measure:reject", "base.run_batch_and_measure:reject_length",
@@ -141,12 +142,12 @@ def _delta(r, pre):
     return (c1 - pre["c"][0], j1 - pre["c"][1])
 
 
-def _check_rejected(mon, name, r, pre, call, what):
+def _check_rejected(mon, name, r, pre, call, what, corner=False):
     """an invalid request: ValueError, nothing executed, no counter moved.
     Returns True when everything is as demanded."""
     kind = _kind(r)
     if not isinstance(call.exc, ValueError):
-        mon.violation("invalid-request-not-ValueError",
+        mon.violation("empty-batch-nonpositive-count-accepted" if corner else "invalid-request-not-ValueError",
                       f"{name} on {kind}: {what} -> " + (f"raised {call.exc!r}" if call.exc is not None else f"returned {call.result!r}"[:300]))
         return False
     ev = _events(r, pre)
@@ -406,7 +407,7 @@ def _post_batch(mon, call):
                 mon.out_of_domain(name)
                 return
         mon.note(f"rejected-batch:{req}")
-        if _check_rejected(mon, name, r, pre, call, what + f" [{req}]"):
+        if _check_rejected(mon, name, r, pre, call, what + f" [{req}]", corner=(k == 0 and req == "nonpositive")):
             mon.ok(name)
         return
     ns = M.per_circuit(k, n)
@@ -590,7 +591,7 @@ def _post_tbatch(mon, call):
         if k == 0 and req == "nonpositive" and not EMPTY_BATCH_NONPOSITIVE_IS_INVALID:
             mon.out_of_domain(name)
             return
-        if _check_rejected(mon, name, t, pre, call, what + f" [{req}]"):
+        if _check_rejected(mon, name, t, pre, call, what + f" [{req}]", corner=(k == 0 and req == "nonpositive")):
             mon.ok(name)
         return
     d = _delta(t, pre)
@@ -879,15 +880,16 @@ def run_case(ctx):
             if obj is None:
                 continue
             c, j = obj.n_circuits_executed, obj.n_jobs_executed
+            chk = "history-counters" if label == "runner" else "history-counters-tracker"
             if model.exact:
                 good = (c, j) == (model.circuits, model.jobs)
-                ctx.check("history-counters", good,
+                ctx.check(chk, good,
                           lambda: f"after step {step} {_call_str(call)} the {label}'s counters are {(c, j)}, "
                                   f"the model of the history so far gives {(model.circuits, model.jobs)}")
                 if not good:
                     model.resync(c, j)
             else:
-                ctx.check("history-counters", model.resync(c, j),
+                ctx.check(chk, model.resync(c, j),
                           lambda: f"after step {step} {_call_str(call)} the {label}'s counters decreased to {(c, j)}")
 
     try:
@@ -924,7 +926,7 @@ def run_case(ctx):
             if expect in ("nonpositive", "length", "entry"):
                 empty_corner = call["op"] == "batch" and not cs and expect == "nonpositive"
                 if not (empty_corner and not EMPTY_BATCH_NONPOSITIVE_IS_INVALID):
-                    ctx.check("history-outcome", isinstance(exc, ValueError),
+                    ctx.check("history-outcome-empty-batch" if empty_corner else "history-outcome", isinstance(exc, ValueError),
                               lambda: f"step {step} {_call_str(call)} [{expect}] was not rejected with ValueError: "
                                       + (repr(exc) if exc is not None else f"returned {res!r}"[:200]))
             elif expect == "refused":
